@@ -284,8 +284,22 @@ impl Ctx {
         let stop = Arc::new(AtomicBool::new(false));
         let known = Arc::new(self.known.clone());
 
-        // fixed cases first (single thread)
-        for case in part.fixed_cases() {
+        // fixed cases first (single thread): the part's own, then the committed regression cases
+        // under /verif/replays/<PROPERTY>/<part>/*.json (shrunk failures of earlier sessions)
+        let mut fixed = part.fixed_cases();
+        let dir = verif_dir().join("replays").join(property).join(part.name());
+        if let Ok(rd) = std::fs::read_dir(&dir) {
+            let mut files: Vec<_> = rd.flatten().map(|e| e.path()).filter(|p| p.extension().map_or(false, |e| e == "json")).collect();
+            files.sort();
+            for f in files {
+                let parsed = std::fs::read_to_string(&f).ok().and_then(|s| serde_json::from_str::<Value>(&s).ok());
+                match parsed.and_then(|v| serde_json::from_value::<P::Case>(v.get("case").cloned().unwrap_or(v)).ok()) {
+                    Some(c) => fixed.push(c),
+                    None => eprintln!("note: regression case {} does not decode for part {} (format changed?) - skipped", f.display(), part.name()),
+                }
+            }
+        }
+        for case in fixed {
             let mut obs = Obs::default();
             let r = run_case_caught(&*part, &case, &mut obs);
             let mut rep = shared.lock().unwrap();
